@@ -83,10 +83,18 @@ def canon(x, budget=None):
         return int(x)
     if isinstance(x, sympy.Rational):
         return {"q": [int(x.p), int(x.q)]}
-    if isinstance(x, sympy.Basic):
-        return {"sym": sympy.srepr(x)}
-    if isinstance(x, (float, complex)):
-        return {"float": repr(x)}
+    if isinstance(x, (sympy.Basic, float, complex)):
+        # the value as any LazyList delivers it (LazyList.__next__ applies
+        # helpers.vyxalify): floats and inexact sympy numbers become exact
+        try:
+            y = sympy.nsimplify(x, rational=True)
+        except Exception:  # noqa: BLE001
+            y = x
+        if isinstance(y, sympy.Integer):
+            return int(y)
+        if isinstance(y, sympy.Rational):
+            return {"q": [int(y.p), int(y.q)]}
+        return {"sym": sympy.srepr(y)} if isinstance(y, sympy.Basic) else {"float": repr(y)}
     if x is None:
         return {"none": 1}
     if isinstance(x, types.FunctionType):
@@ -251,6 +259,15 @@ def run_case(item):
     if got == ("ok", want):
         leaves = [(json.loads(k), r[1]) for k, r in cache.items() if r[0] == "ok"]
         return {"s": "ok", "got": want, "leaves": leaves}
+    # a scalar overload that answers differently when asked again (random choice) has no
+    # "list of its results": skip
+    cache2 = {}
+    try:
+        again = spec_apply(fn, args, cache2)
+    except ScalarRejects:
+        again = None
+    if again != want:
+        return {"s": "skip", "why": "scalar overload is not deterministic on these items"}
     bargs, bmodes = blame(fn, args, modes, cache)
     try:
         bwant = spec_apply(fn, bargs, cache)
